@@ -14,8 +14,8 @@ from . import build as B
 from . import run as R
 
 VERIF = B.VERIF
-EVIDENCE = os.path.join(VERIF, "evidence")
-REPLAYS = os.path.join(VERIF, "replays")
+EVIDENCE = os.environ.get("VERIF_EVIDENCE_DIR") or os.path.join(VERIF, "evidence")
+REPLAYS = os.environ.get("VERIF_REPLAY_DIR") or os.path.join(VERIF, "replays")
 FINDINGS = os.path.join(VERIF, "known_findings.json")
 
 BUDGET = float(os.environ.get("VERIF_BUDGET", "1"))
@@ -83,7 +83,7 @@ class Ctx:
         try:
             binary, env = B.build(engine, cfg, **build_kwargs)
         except B.BuildError as e:
-            self.inconclusive.append("build failed for %s/%s: %s" % (engine, cfg, str(e)[-1500:]))
+            self.inconclusive.append("build failed for %s/%s: %s" % (engine, cfg, str(e)[:1500]))
             self.stages.append({"name": name, "engine": engine, "cfg": cfg, "build": "FAILED"})
             return []
         tb = time.time() - t0
